@@ -43,6 +43,10 @@ class MultichainPolicyIteration(Plans):
             atol=10**(-self.VALUE_DECIMAL_PRECISION),
             rtol=0
         )
+        if mdp.discount_rate < 1.0:
+            # the gain of a discounted problem is identically zero; what the solve returns for it is
+            # round-off noise, which must not take part in selecting the policy's actions
+            gain_max_actions = mdp.action_matrix.astype(bool)
         policy_matrix = gain_max_actions & bias_max_actions
         policy_matrix = policy_matrix/policy_matrix.sum(-1, keepdims=True)
         policy=TabularPolicy.from_state_action_lists(
